@@ -470,6 +470,15 @@ class Report:
     def defer(self, text):
         """an unmodelled idiom met by one rule instance: ANALYSIS-ERROR unless the tree has real violations anyway"""
         self.deferred.append(text)
+        if getattr(self, "parent", None) is not None:
+            self.parent.defer(text)
+
+    def sub(self):
+        """a scratch report for re-using another property's rule under a rule id of this property; what the re-used rule
+        defers is deferred here as well (an unmodelled idiom must never vanish)"""
+        r = type(self)(self.prop)
+        r.parent = self
+        return r
 
 
 def obl(rep, fn, node, rule, cond, construct, why_ok="", why_bad=None, nontrivial=True):
